@@ -745,22 +745,67 @@ def _f_outfiles():
     return [('outFilesEvents', '', 'List FsEvent', '[' + ', '.join(ev) + ']', '_out_files: existence checks and opens, in source order')]
 
 
+def bool_expr(node, atoms):
+    """a Python boolean expression over named atoms (source text -> Lean Bool variable)"""
+    key = U(node)
+    if key in atoms:
+        return atoms[key]
+    if isinstance(node, ast.BoolOp):
+        op = ' || ' if isinstance(node.op, ast.Or) else ' && '
+        return '(' + op.join(bool_expr(v, atoms) for v in node.values) + ')'
+    if isinstance(node, ast.UnaryOp) and isinstance(node.op, ast.Not):
+        return f'(!{bool_expr(node.operand, atoms)})'
+    raise TranslationError(f'cannot translate the condition `{key}`')
+
+
+def _c_invoke():
+    """cli.py FuseCommand.invoke: when a configuration-file value replaces a parameter; default creation options"""
+    from homonim import cli
+    fn = fn_body(src_of(cli.FuseCommand.invoke))
+    loops = [n for n in ast.walk(fn) if isinstance(n, ast.For)]
+    if len(loops) != 1 or U(loops[0].target) != '(conf_key, conf_value)' or U(loops[0].iter) != 'config_dict.items()':
+        raise TranslationError('FuseCommand.invoke: loop over the configuration file')
+    body = loops[0].body
+    if len(body) != 1 or not isinstance(body[0], ast.If) or U(body[0].test) != 'conf_key not in ctx.params' or \
+            not (len(body[0].body) == 1 and isinstance(body[0].body[0], ast.Raise) and U(body[0].body[0].exc).startswith('click.BadParameter(')):
+        raise TranslationError('FuseCommand.invoke: unknown keys must raise click.BadParameter')
+    els = body[0].orelse
+    if len(els) != 2 or U(els[0]) != 'param_src = ctx.get_parameter_source(conf_key)' or not isinstance(els[1], ast.If):
+        raise TranslationError('FuseCommand.invoke: merge branch')
+    cond = bool_expr(els[1].test, {'ctx.params[conf_key] is None': 'valIsNone', 'param_src == ParameterSource.DEFAULT': 'srcIsDefault'})
+    if [U(x) for x in els[1].body] != ['ctx.params[conf_key] = conf_value', 'ctx.set_parameter_source(conf_key, ParameterSource.COMMANDLINE)'] \
+            or els[1].orelse:
+        raise TranslationError('FuseCommand.invoke: what a merged key becomes')
+    ifs = [n for n in fn.body if isinstance(n, ast.If)]
+    co = ifs[-1]
+    cocond = bool_expr(co.test, {"ctx.get_parameter_source('driver') == ParameterSource.DEFAULT": 'driverIsDefault',
+                                 "ctx.get_parameter_source('creation_options') == ParameterSource.DEFAULT": 'coIsDefault'})
+    if [U(x) for x in co.body] != ["ctx.params['creation_options'] = RasterFuse.create_out_profile()['creation_options']"]:
+        raise TranslationError('FuseCommand.invoke: default creation options')
+    fn2 = fn_body(src_of(cli._update_existing_keys))
+    ret = [n for n in ast.walk(fn2) if isinstance(n, ast.Return)][0]
+    if U(ret.value) != '{k: kwargs.get(k, v) for k, v in default_dict.items()}':
+        raise TranslationError(f'_update_existing_keys returns `{U(ret.value)}`')
+    return [('cli_mergeCond', '(valIsNone srcIsDefault : Bool)', 'Bool', cond, 'FuseCommand.invoke: ' + U(els[1].test)),
+            ('cli_defaultCoCond', '(driverIsDefault coIsDefault : Bool)', 'Bool', cocond, 'FuseCommand.invoke: ' + U(co.test).replace('\n', ' '))]
+
+
 # one extractor per source function: a failure in one leaves the others (and the properties they serve) alone
 SECTIONS = [_k_fit_gain, _k_fit_gain_offset, _k_r2, _k_blk, _s_cmp, _s_cmp_mean, _s_stats, _g_blocks, _g_resolve, _g_auto,
-            _g_overlap, _g_expand, _g_round, _g_covers, _g_pindex, _s_cmp_block, _m_cover, _a_bounded, _p_r2band, _f_prog, _f_outfiles]
+            _g_overlap, _g_expand, _g_round, _g_covers, _g_pindex, _s_cmp_block, _m_cover, _a_bounded, _p_r2band, _f_prog, _f_outfiles, _c_invoke]
 # definition-name prefixes each extractor is responsible for (used to attribute a failed extraction to properties)
 PROVIDES = {'_k_fit_gain': ('fitGain_',), '_k_fit_gain_offset': ('fitGainOffset_',), '_k_r2': ('r2_',),
             '_k_blk': ('blk_', 'blockNorm_', 'applyParams'), '_s_cmp': ('cmp_',), '_s_cmp_mean': ('cmp_meanRow',),
             '_s_stats': ('stats_',), '_g_blocks': ('blocks_',), '_g_resolve': ('resolveAutoIsRef',), '_g_auto': ('autoBlock_',),
             '_g_overlap': ('overlapForKernel',), '_g_expand': ('expandWindow_',), '_g_round': ('roundBounds_',),
             '_g_covers': ('covers_axis',), '_g_pindex': ('paramIndex',), '_s_cmp_block': ('cmpPx_',), '_m_cover': ('cover_',),
-            '_a_bounded': ('bounded_',), '_p_r2band': ('stats_isR2Band', 'stats_inpainted'), '_f_prog': ('prog',), '_f_outfiles': ('outFilesEvents',)}
+            '_a_bounded': ('bounded_',), '_p_r2band': ('stats_isR2Band', 'stats_inpainted'), '_f_prog': ('prog',), '_f_outfiles': ('outFilesEvents',), '_c_invoke': ('cli_',)}
 # which generated definitions (by name prefix) bear on which property's check
 SERVES = {
     'C01': ('fitGain', 'r2_', 'blk_', 'blockNorm_'), 'C02': ('fitGain', 'r2_', 'blk_', 'blockNorm_', 'applyParams'),
     'C07': ('fitGain', 'r2_', 'blk_', 'blockNorm_', 'applyParams'), 'C14': ('applyParams', 'paramIndex'),
     'C04': ('prog',), 'C09': ('prog', 'outFilesEvents'), 'C10': ('outFilesEvents',), 'C11': ('cmp_', 'cmpPx_'), 'C12': ('stats_',), 'C17': ('cover_',), 'C20': ('bounded_',), 'C05': ('overlapForKernel', 'blocks_'),
-    'C06': ('blocks_', 'expandWindow_', 'roundBounds_', 'autoBlock_'), 'C16': ('covers_axis',), 'C18': ('resolveAutoIsRef',),
+    'C06': ('blocks_', 'expandWindow_', 'roundBounds_', 'autoBlock_'), 'C16': ('covers_axis',), 'C18': ('resolveAutoIsRef',), 'C19': ('cli_',),
 }
 # theorems outside Props/Cxx.lean audited with a property's proof leg: (module, theorem name prefix) - the source-text tie
 # theorems and the end-to-end theorems about the whole-image model (Props/E2E.lean)
@@ -774,7 +819,7 @@ TIE = {
             ('E2ESrc', 'block_transparent_src_grid'), ('E2ESrc', 'partitions_agree_src_grid'), ('E2ESrc', 'correctedSrcGrid_eq_on')],
     'C06': [('SrcTieGeom', 'src_C06_')], 'C16': [('SrcTieGeom', 'src_C16_')], 'C18': [('SrcTieGeom', 'src_C18_')],
     'C17': [('SrcTieGeom', 'src_C17_')], 'C20': [('SrcTieGeom', 'src_C20_')],
-    'C04': [('SrcTieSched', 'src_C04_')], 'C09': [('SrcTieSched', 'src_C04_')], 'C10': [('SrcTieSched', 'src_C10_')],
+    'C04': [('SrcTieSched', 'src_C04_')], 'C09': [('SrcTieSched', 'src_C04_')], 'C10': [('SrcTieSched', 'src_C10_')], 'C19': [('SrcTieSched', 'src_C19_')],
 }
 
 
